@@ -50,4 +50,22 @@ def judgeNest (depth : Nat) (op : String) (impl : List String) : Judged :=
       fails := if implWithin then [] else [s!"C03:memory-superlinear-in-nesting-depth:{op}"],
       tags := [s!"nest depth={depth} op={op} ratio={n / inp} {withinStr implWithin}"] }
 
+/-- `resource retain msgs=<n> per=<k> g=<g> => err=ok bad=<b> in=<bytes> retained=<bytes>`: decoding
+    is a function of the bytes and the (read-only) dictionary (`Model.Codec.decodeMsg` has no state
+    to grow), so once the messages are dropped nothing of them stays: a constant allowance -/
+def judgeRetain (msgs per g : Nat) (impl : List String) : Judged :=
+  let implStr := " ".intercalate impl
+  if (impl.headD "").startsWith "crash" then
+    { model := "err=ok bad=0 retained-within", fails := [s!"C03:process-crash:decoding-unknown-avps:{((impl.headD "").drop 6).toString.take 60}"],
+      tags := [s!"retain g={g} crash"] }
+  else
+    let n := (kvNat impl "retained").getD 0
+    let bad := (kvNat impl "bad").getD 0
+    let bound := 2 * 1048576
+    let within := decide (n ≤ bound)
+    { model := if within ∧ bad = 0 then implStr else "err=ok bad=0 retained-within",
+      fails := (if within then [] else ["C03:memory-retained-after-the-messages-were-dropped"]) ++
+               (if bad = 0 then [] else ["C03:unknown-avp-not-decoded"]),
+      tags := [s!"retain msgs={msgs} per={per} g={g} {withinStr within}"] }
+
 end DV.Drv
